@@ -12,3 +12,17 @@ macro_rules! info  { ($($t:tt)*) => { () } }
 
 #[verifier::external_body]
 pub fn nondet() -> bool { unimplemented!() }
+
+// `vec![elem; n]` allocates n elements up front: std panics ("capacity overflow") when that exceeds
+// isize::MAX bytes.  The std macro is shadowed so that this panic is an obligation; every other
+// form of vec! is the std one.  (vstd's own spec of from_elem has no such precondition.)
+#[verifier::external_body]
+pub fn vec_from_elem_checked<T: Clone>(elem: T, n: usize) -> (r: Vec<T>)
+    requires n <= isize::MAX,
+    ensures r@.len() == n, forall|i: int| 0 <= i < n ==> cloned::<T>(elem, #[trigger] r@[i]),
+{ unimplemented!() }
+#[allow(unused_macros)]
+macro_rules! vec {
+    ($elem:expr; $n:expr) => { crate::vec_from_elem_checked($elem, $n) };
+    ($($x:tt)*) => { ::std::vec![$($x)*] };
+}
